@@ -6,9 +6,11 @@ model-check MC_AtomsAbs  ->  TLC emits one behaviour per distinct reachable stat
    with Trace_AtomsAbs (abstraction of observed post-state = spec operation on abstraction of
    observed pre-state)."""
 import copy
+import hashlib
 import io
 import contextlib
 import json
+import multiprocessing
 import random
 
 import numpy as np
@@ -23,13 +25,21 @@ OP_PROP = {"Delete": "C10", "Pop": "C10", "Extend": "C11", "ExtendTypes": "C11",
 PROP_OPS = {"C10": ["Delete", "Pop"], "C11": ["Extend", "ExtendTypes", "ExtendShifted"], "C12": ["Replicate"],
             "C09": sorted(OP_PROP)}
 
+ALLF = '{"F1p", "F2p", "F3p", "F4p", "F3r", "F3q", "F3a", "F2b", "F4b", "F3x", "F2y", "E"}'
 TIERS = {
-    "quick": dict(InitFrags='{"F2p", "F4p", "F2b", "F3x", "E"}', ExtFrags='{"F1p", "F2p", "F3p", "F2b", "F2y"}',
-                  InitCells='{"none", "tri"}', MaxAtoms=8, MaxDepth=2, MaxMap=1, MaxDel=3, Dims="DimsQuick"),
-    "thorough": dict(InitFrags='{"F1p", "F2p", "F3p", "F4p", "F2b", "F3x", "E"}',
-                     ExtFrags='{"F1p", "F2p", "F3p", "F4p", "F2b", "F2y", "E"}',
-                     InitCells='{"none", "ortho", "tri", "trineg"}', MaxAtoms=12, MaxDepth=3, MaxMap=2, MaxDel=3,
-                     Dims="DimsThorough"),
+    "quick": {
+        "C09": dict(InitFrags='{"F2p", "F4p", "F3r", "F3a", "F4b", "F3x", "E"}', ExtFrags='{"F1p", "F3p", "F3q", "F2b", "F2y"}',
+                    InitCells='{"none", "tri"}', MaxAtoms=8, MaxDepth=2, MaxMap=1, MaxDel=2, Dims="DimsQuick"),
+        "C10": dict(InitFrags='{"F2p", "F4p", "F3r", "F3a", "F4b", "F3x"}', ExtFrags='{"F1p", "F3p", "F2y"}',
+                    InitCells='{"none"}', MaxAtoms=8, MaxDepth=2, MaxMap=1, MaxDel=3, Dims="DimsQuick"),
+        "C11": dict(InitFrags='{"F2p", "F4p", "F3r", "F3a", "F4b", "F3x", "E"}', ExtFrags='{"F1p", "F3p", "F3q", "F2b", "F2y"}',
+                    InitCells='{"none"}', MaxAtoms=8, MaxDepth=2, MaxMap=1, MaxDel=2, Dims="DimsQuick"),
+        "C12": dict(InitFrags='{"F2p", "F4p", "F3r", "F3a", "F4b", "F3x"}', ExtFrags='{"F1p", "F2y"}',
+                    InitCells='{"ortho", "tri", "trineg"}', MaxAtoms=12, MaxDepth=2, MaxMap=1, MaxDel=1, Dims="DimsMid"),
+    },
+    "thorough": {p: dict(InitFrags=ALLF, ExtFrags=ALLF, InitCells='{"none", "ortho", "tri", "trineg"}',
+                         MaxAtoms=12, MaxDepth=3, MaxMap=2, MaxDel=3, Dims="DimsThorough")
+                 for p in ("C09", "C10", "C11", "C12")},
 }
 
 
@@ -87,17 +97,40 @@ def order_variants(ixs, rnd):
     return uniq
 
 
-def execute(beh, R, variant=0, rnd=None):
-    """Run one behaviour on the real code.  Returns the list of observed transitions."""
+def _sigs(beh):
+    out, h = [], ""
+    for st in beh:
+        h = hashlib.sha1((h + json.dumps(st, sort_keys=True)).encode()).hexdigest()
+        out.append(h)
+    return out
+
+
+def execute(beh, R, variant=0, rnd=None, cache=None):
+    """Run one behaviour on the real code.  Returns the list of observed transitions.
+    cache: dict shared between behaviours; a behaviour whose prefix was already executed (same rendering,
+    canonical variant) continues from a deep copy of the object that prefix produced."""
     rnd = rnd or random.Random(0)
     atoms = None
     held = {}
     steps = []
     nsteps = len(beh)
+    start = 0
+    sigs = _sigs(beh) if cache is not None else None
+    if cache is not None:
+        for n in range(nsteps - 1, 0, -1):
+            hit = cache.get((R.name, sigs[n - 1]))
+            if hit is not None:
+                a0, h0, st0 = hit
+                if a0 is None:          # the prefix ended in an exception: nothing new to observe
+                    return list(st0)
+                atoms, held, steps, start = copy.deepcopy(a0), dict(h0), list(st0), n
+                break
     for n, st in enumerate(beh):
+        if n < start:
+            continue
         rec = _blank_step()
         rec["op"] = op = st["op"]
-        pre = project(atoms, R) if atoms is not None else empty_K()
+        pre = steps[-1]["post"] if steps else empty_K()
         rec["pre"] = pre
         other = None
         src = None
@@ -167,6 +200,8 @@ def execute(beh, R, variant=0, rnd=None):
             rec["exc_msg"] = str(e)[:200]
             rec["post"] = pre
             steps.append(rec)
+            if cache is not None and variant == 0:
+                cache[(R.name, sigs[n])] = (None, None, list(steps))
             break
         rec["post"] = project(atoms, R)
         rec["wf"] = rec["post"]["wf"]
@@ -178,29 +213,38 @@ def execute(beh, R, variant=0, rnd=None):
                 # independence probe: the result is a separate object; mutating it must not reach the source
                 try:
                     with contextlib.redirect_stderr(io.StringIO()), contextlib.redirect_stdout(io.StringIO()):
-                        _scribble(atoms, R)
+                        _scribble(atoms, R, tables=(op == "Copy"))
                 except Exception:
                     pass
                 if project(other, R) != src:
                     rec["src_same"] = "no"
+                steps.append(rec)
+                return steps          # the result was scribbled on: not cached
         steps.append(rec)
+        if cache is not None and variant == 0 and n < nsteps - 1 or (cache is not None and variant == 0 and op not in ("Replicate", "Subset", "Copy")):
+            cache[(R.name, sigs[n])] = (copy.deepcopy(atoms), dict(held), list(steps))
     return steps
 
 
-def _scribble(a, R):
-    """in-place edits of every public array / table of `a` (used only on objects that are thrown away)"""
+def _scribble(a, R, tables=False):
+    """edits of `a` (an object that is thrown away afterwards) that must not reach the object it was made from:
+    public operations that work in place (translate, extend with an identity map), element writes to the
+    per-atom and per-term arrays; with tables=True (deep copies) also the type tables."""
+    from mofun import Atoms
     if len(a) > 0:
         a.translate(R.vec([1, 2, 3])[0])
+        one = Atoms(atom_types=[0], positions=[a.positions[0]], atom_type_elements=["He"], atom_type_labels=["probe"],
+                    atom_type_masses=[4.0], pair_coeffs=["probe"] if len(a.pair_coeffs) else [])
+        try:
+            a.extend(one, structure_index_map={0: 0})
+        except Exception:
+            pass
         a.charges[0] += 1.0
         a.groups[0] += 1
         a.atom_types[0] = a.atom_types[-1]
-    for name in ("atom_type_labels", "atom_type_elements", "pair_coeffs", "bond_type_coeffs", "angle_type_coeffs",
-                 "dihedral_type_coeffs", "improper_type_coeffs"):
-        t = getattr(a, name)
-        if len(t) > 0:
-            t[0] = "Xx"
-    if len(a.atom_type_masses) > 0:
-        a.atom_type_masses[0] = 1.0
+        a.positions[-1][0] += 1.0
+    if a.cell is not None:
+        a.cell[0][0] += 1.0
     for name in ("bonds", "angles", "dihedrals", "impropers"):
         t = getattr(a, name)
         if len(t) > 0:
@@ -213,10 +257,34 @@ def _scribble(a, R):
         t = getattr(a, name)
         if getattr(t, "size", 0) > 0:
             t[0][0] = "zz"
+    if not tables:
+        return
+    for name in ("atom_type_labels", "atom_type_elements", "pair_coeffs", "bond_type_coeffs", "angle_type_coeffs",
+                 "dihedral_type_coeffs", "improper_type_coeffs"):
+        t = getattr(a, name)
+        if len(t) > 0:
+            t[0] = "Xx"
+    if len(a.atom_type_masses) > 0:
+        a.atom_type_masses[0] = 1.0
     for name in ("extra_atom_labels", "extra_bond_labels"):
         getattr(a, name).add("_scribble")
-    if a.cell is not None:
-        a.cell[0][0] += 1.0
+
+
+def _exec_group(task):
+    group, sd = task
+    cache, trans, where, paths = {}, {}, {}, []
+    for b, R, v in group:
+        steps = execute(b, R, v, random.Random(sd), cache)
+        path = []
+        for n, rec in enumerate(steps):
+            s = _strip(rec)
+            key = json.dumps(s, sort_keys=True)
+            path.append(key)
+            if key not in trans:
+                trans[key] = s
+                where[key] = (b, R, v, n, rec)
+        paths.append(path)
+    return trans, where, paths, len(group)
 
 
 def _strip(rec):
@@ -253,7 +321,7 @@ def gen_behaviours(consts, emit_ops, timeout):
 
 def run(prop, tier, replay=None):
     out = Outcome(prop, tier)
-    consts = dict(TIERS[tier])
+    consts = dict(TIERS[tier][prop])
     sd = seed()
     rnd = random.Random(sd)
     ops = PROP_OPS[prop]
@@ -289,22 +357,24 @@ def run(prop, tier, replay=None):
                         continue
                     cases.append((b, R, v))
         out.exhaustive = True
-    # 3. execute
-    trans = {}
-    where = {}
-    paths = []
-    for b, R, v in cases:
-        steps = execute(b, R, v, random.Random(sd))
-        out.evaluations += 1
-        path = []
-        for n, rec in enumerate(steps):
-            s = _strip(rec)
-            key = json.dumps(s, sort_keys=True)
-            path.append(key)
-            if key not in trans:
-                trans[key] = s
-                where[key] = (b, R, v, n, rec)
-        paths.append(path)
+    # 3. execute (in parallel: one task per rendering x initial structure, so prefixes are shared inside a task)
+    trans, where, paths = {}, {}, []
+    groups = {}
+    for c in cases:
+        groups.setdefault((c[1].name, json.dumps(c[0][0], sort_keys=True)), []).append(c)
+    tasks = [(g, sd) for g in groups.values()]
+    if len(cases) < 200:
+        results = [_exec_group(t) for t in tasks]
+    else:
+        with multiprocessing.get_context("fork").Pool(min(14, len(tasks))) as pool:
+            results = pool.map(_exec_group, tasks, chunksize=1)
+    for tr, wh, pa, nexec in results:
+        out.evaluations += nexec
+        for k, v in tr.items():
+            if k not in trans:
+                trans[k] = v
+                where[k] = wh[k]
+        paths.extend(pa)
     items = list(trans.values())
     keys = list(trans.keys())
     # 4. validate every distinct observed transition with TLC
